@@ -68,7 +68,8 @@ class Ctx:
             return Explorer(self.ix, self.pta, **kw)
         from .rules import caches
         cold = caches.all_cold_fields(self)
-        return Explorer(self.ix, self.pta, cold_fields=cold, on_cold_read=self._caches_used.add, **kw)
+        return Explorer(self.ix, self.pta, cold_fields=cold, on_cold_read=self._caches_used.add,
+                        cold_invalidators=getattr(self, '_cold_invalidators', {}), **kw)
 
     # -- ledger -----------------------------------------------------------
     def rule(self, rid: str, text: str):
